@@ -282,11 +282,11 @@ func (e *dateSepEval) run() dateSepOutcome {
 		switch t := b.Instrs[len(b.Instrs)-1].(type) {
 		case *ssa.Return:
 			// accepting: the value comes from civil2Date; rejecting: nil value
-			if isNilConst(t.Results[0]) {
+			if isNilConst(retResult(t, 0)) {
 				out.rejects++
 				return
 			}
-			c, _ := callOf(derefFlow(t.Results[0]))
+			c, _ := callOf(derefFlow(retResult(t, 0)))
 			if c != nil && sameFn(staticCallee(c), c2d) {
 				out.accepts++
 				// the format argument
